@@ -1,6 +1,7 @@
 package main
 
 import (
+	"encoding/json"
 	"fmt"
 	"sort"
 	"strings"
@@ -31,9 +32,25 @@ func (n *Node) Clone() *Node {
 
 // Op is one mutation of a batch.
 type Op struct {
-	Kind byte   `json:"k"` // 'S' set, 'D' del, 'M' merge
-	Key  string `json:"key"`
-	Val  string `json:"val"`
+	Kind  byte   `json:"k"` // 'S' set, 'D' del, 'M' merge
+	Key   string `json:"key"`
+	Val   string `json:"val"`
+	Alloc bool   `json:"alloc,omitempty"` // build this op with Alloc + AllocSet/AllocDel/AllocMerge
+}
+
+// MarshalJSON renders the operation kind as a letter.
+func (o Op) MarshalJSON() ([]byte, error) {
+	type alias struct {
+		Kind  string `json:"k"`
+		Key   string `json:"key"`
+		Val   string `json:"val,omitempty"`
+		Alloc bool   `json:"alloc,omitempty"`
+	}
+	v := o.Val
+	if len(v) > 40 {
+		v = fmt.Sprintf("%s...(%d bytes)", v[:16], len(v))
+	}
+	return json.Marshal(alias{string(rune(o.Kind)), o.Key, v, o.Alloc})
 }
 
 // BatchSpec is a batch: operations on this collection plus child batches / child deletions.
@@ -340,7 +357,7 @@ func dumpSnapshot(ss moss.Snapshot, probes []string, depth int) *DumpT {
 func BuildBatch(b moss.Batch, spec *BatchSpec) error {
 	for _, o := range spec.Ops {
 		var err error
-		if spec.UseAlloc {
+		if spec.UseAlloc || o.Alloc {
 			kb, e := b.Alloc(len(o.Key))
 			if e != nil {
 				return e
